@@ -461,6 +461,19 @@ def silent(rep, tier):
             env_o = {"f0": f0, "i0": i0, "z0": 1 + A("t")}
             crf.add("O20.fires.%s(D=1,%s)" % (nm, bn), "O20.fires", 1, ["i0"], "out[0] = eaddr(v[i0], base);", {(0, "must-assert"): P.const(0)},
                     cases=[dict(env_o, __signs=sg, __expect_assert=True)])
+        # slicing a view whose index base is not zero: valid slices [a, a + w) inside [f, f + size) are silent (incl. the slice up to the end)
+        for D2 in (1, 2):
+            for nm, a_, w_, z_ in (("inside", f0 + A("r"), 1 + A("u"), A("r") + 1 + A("u") + 1 + A("t")), ("up to the end", f0 + A("r"), 1 + A("u"), A("r") + 1 + A("u")),
+                                   ("from the beginning", f0, 1 + A("u"), 1 + A("u") + A("t"))):
+                env_s = {"f0": f0, "a": a_, "w": w_, "z0": z_}
+                sgs = dict(sg)
+                sgs["u"] = NONNEG
+                for k in range(1, D2):
+                    env_s["z%d" % k] = 1 + A("t%d" % k)
+                    sgs["t%d" % k] = NONNEG
+                    sgs["s%d" % k] = POS
+                crf.add("O20.silent.sliced(D=%d,%s,%s)" % (D2, bn, nm), "O20.silent", D2, ["a", "w"], "auto&& sl = v.sliced(a, a + w); out[0] = sl.size();", {(0, "size"): w_},
+                        cases=[dict(env_s, __signs=sgs)])
     crf.compile(nshards=2, defines=("-UNDEBUG", "-mllvm", "-inline-threshold=1000000"))
     check_expect(crf, rep)
 
